@@ -114,3 +114,271 @@ Lemma canon_other s : canon TOther (Some s) = true.
 Proof. unfold canon. cbn. apply str_eqb_refl. Qed.
 Lemma canon_none t : canon t None = true.
 Proof. destruct t; reflexivity. Qed.
+
+(* ================================================================ 2. entries of an object *)
+Lemma jfind_cons k key v r : jfind key ((k, v) :: r) = if k =? key then Some v else jfind key r.
+Proof. unfold jfind. cbn [find fst snd]. destruct (k =? key); reflexivity. Qed.
+
+Lemma jfind_entries_notin (L : list (Z * option json)) f :
+  ~ In f (map fst L) -> jfind f (opt_entries L) = None.
+Proof.
+  induction L as [|[g e] r IH]; intros Hn; [reflexivity|]. unfold opt_entries in *. cbn [flat_map fst snd].
+  assert (Hg : g <> f) by (intros E; apply Hn; left; exact E).
+  assert (Hr : ~ In f (map fst r)) by (intros H; apply Hn; right; exact H).
+  destruct e as [j|]; cbn [app]; [|exact (IH Hr)].
+  rewrite jfind_cons. destruct (Z.eqb_spec g f) as [E|_]; [contradiction | exact (IH Hr)].
+Qed.
+
+Lemma jfind_entries_in (L : list (Z * option json)) f e :
+  NoDup (map fst L) -> In (f, e) L -> jfind f (opt_entries L) = e.
+Proof.
+  induction L as [|[g e'] r IH]; intros Hn Hin; [contradiction|].
+  simpl in Hn. inversion Hn as [|a b Hx Hr]; subst. unfold opt_entries in *. cbn [flat_map fst snd].
+  destruct Hin as [E|Hin].
+  - inversion E; subst. destruct e as [j|]; cbn [app].
+    + rewrite jfind_cons, Z.eqb_refl. reflexivity.
+    + exact (jfind_entries_notin r f Hx).
+  - assert (Hg : g <> f).
+    { intros E. subst g. apply Hx. change f with (fst (f, e)). apply in_map. exact Hin. }
+    destruct e' as [j|]; cbn [app]; [|exact (IH Hr Hin)].
+    rewrite jfind_cons. destruct (Z.eqb_spec g f) as [E|_]; [contradiction | exact (IH Hr Hin)].
+Qed.
+
+Lemma entries_keys_in (L : list (Z * option json)) q : In q (opt_entries L) -> In (fst q) (map fst L).
+Proof.
+  unfold opt_entries. intros H. apply in_flat_map in H. destruct H as ([g e] & Hin & Hq). cbn [fst snd] in Hq.
+  destruct e as [j|]; [|contradiction]. destruct Hq as [<-|[]]. cbn [fst].
+  change g with (fst (g, Some j)). apply in_map. exact Hin.
+Qed.
+
+Lemma entries_keys_nodup (L : list (Z * option json)) : NoDup (map fst L) -> NoDup (map fst (opt_entries L)).
+Proof.
+  induction L as [|[g e] r IH]; intros Hn; [constructor|].
+  simpl in Hn. inversion Hn as [|a b Hx Hr]; subst. unfold opt_entries in *. cbn [flat_map fst snd].
+  destruct e as [j|]; cbn [app]; [|exact (IH Hr)]. cbn [map fst]. constructor; [|exact (IH Hr)].
+  intros Hin. apply in_map_iff in Hin. destruct Hin as (q & Eq & Hq).
+  apply Hx. rewrite <- Eq. exact (entries_keys_in r q Hq).
+Qed.
+
+Lemma opt_entries_app (a b : list (Z * option json)) : opt_entries (a ++ b) = opt_entries a ++ opt_entries b.
+Proof. unfold opt_entries. apply flat_map_app. Qed.
+
+(* ================================================================ children grouped by feature *)
+Lemma split_group {A} (f : Z) (kids : list (Z * A)) : forall K',
+  ~ In f K' -> map fst kids = map fst (filter (fun p => fst p =? f) kids) ++ K' ->
+  kids = filter (fun p => fst p =? f) kids ++ filter (fun p => negb (fst p =? f)) kids
+  /\ map fst (filter (fun p => negb (fst p =? f)) kids) = K'.
+Proof.
+  induction kids as [|p r IH]; intros K' Hn H.
+  - simpl in *. split; [reflexivity | exact H].
+  - cbn [filter] in *. destruct (Z.eqb_spec (fst p) f) as [E|N]; cbn [negb].
+    + cbn [map app] in H. inversion H as [H']. destruct (IH K' Hn H') as [I1 I2].
+      split; [cbn [app]; f_equal; exact I1 | exact I2].
+    + destruct (filter (fun q => fst q =? f) r) as [|x t] eqn:Ef.
+      * cbn [map app] in *. rewrite (filter_nil_neg _ r Ef). split; [reflexivity | exact H].
+      * exfalso. assert (Hx : In x (filter (fun q => fst q =? f) r)) by (rewrite Ef; left; reflexivity).
+        apply filter_In in Hx. destruct Hx as [_ Hx]. apply Z.eqb_eq in Hx.
+        cbn [map app] in H. inversion H as [[H1 H2]]. apply N. congruence.
+Qed.
+
+Lemma filter_key_neg {A} (f g : Z) (l : list (Z * A)) : f <> g ->
+  filter (fun p => fst p =? g) (filter (fun p => negb (fst p =? f)) l) = filter (fun p => fst p =? g) l.
+Proof.
+  intros N. induction l as [|p r IH]; [reflexivity|]. cbn [filter].
+  destruct (Z.eqb_spec (fst p) f) as [E|_]; cbn [negb].
+  - destruct (Z.eqb_spec (fst p) g) as [E'|_]; [exfalso; apply N; congruence | exact IH].
+  - cbn [filter]. rewrite IH. reflexivity.
+Qed.
+
+Theorem grouped_ok {A} (L : list feat) : NoDup (map f_id L) -> forall kids : list (Z * A),
+  map fst kids = flat_map (fun d => map fst (filter (fun p => fst p =? f_id d) kids)) L ->
+  kids = flat_map (fun d => filter (fun p => fst p =? f_id d) kids) L.
+Proof.
+  induction L as [|d L' IH]; intros Hn kids H.
+  - simpl in *. destruct kids; [reflexivity | discriminate].
+  - simpl in Hn. inversion Hn as [|a b Hx Hr]; subst. cbn [flat_map] in *.
+    set (K' := flat_map (fun d' => map fst (filter (fun p => fst p =? f_id d') kids)) L') in *.
+    assert (HK : ~ In (f_id d) K').
+    { unfold K'. intros Hin. apply in_flat_map in Hin. destruct Hin as (d' & Hd' & Hin).
+      apply in_map_iff in Hin. destruct Hin as (p & Ep & Hp). apply filter_In in Hp. destruct Hp as [_ Hp].
+      apply Z.eqb_eq in Hp. apply Hx. rewrite <- Ep, Hp. apply in_map. exact Hd'. }
+    destruct (split_group (f_id d) kids K' HK H) as [S1 S2].
+    set (B := filter (fun p => negb (fst p =? f_id d)) kids) in *.
+    assert (HB : forall d', In d' L' ->
+              filter (fun p => fst p =? f_id d') B = filter (fun p => fst p =? f_id d') kids).
+    { intros d' Hd'. apply filter_key_neg. intros E. apply Hx. rewrite E. apply in_map. exact Hd'. }
+    assert (IB : B = flat_map (fun d' => filter (fun p => fst p =? f_id d') B) L').
+    { apply (IH Hr). rewrite S2. unfold K'. apply flat_map_ext_in. intros d' Hd'. rewrite (HB d' Hd'). reflexivity. }
+    rewrite S1 at 1. f_equal. rewrite IB at 1. apply flat_map_ext_in. exact HB.
+Qed.
+
+(* ================================================================ 3. phase 1 of the reader on a written object *)
+Section Phase1.
+  Variable mm : mmodel.
+  Variable sd : bool.
+  Variable S : list sk.
+  Hypothesis Hmm : wf_mm mm = true.
+
+  (* what phase 1 must produce: the object without `_isset`, every reference as the JSON value written for it *)
+  Fixpoint jpre (t : tree (list path)) : tree (option json) :=
+    match t with
+    | Node c iss attrs refs kids =>
+      Node c [] attrs
+           (map (fun p => (fst p, jenc_ref mm sd S (feat_in (c_refs (class_or mm c)) (fst p))
+                                           (isset iss (fst p)) (snd p))) refs)
+           (map (fun p => (fst p, jpre (snd p))) kids)
+    end.
+
+  (* ---- the entries of the object of one node, and their keys *)
+  Section Keys.
+    Variables (decl : option Z) (c : Z) (k : class) (iss : list Z) (attrs : list (Z * list ostr))
+              (refs : list (Z * list path)) (kids : list (Z * tree (list path))).
+    Hypothesis Ek : find_class mm c = Some k.
+    Hypothesis Wattrs : map fst attrs = map f_id (c_attrs k).
+    Hypothesis Wrefs : map fst refs = map f_id (c_refs k).
+
+    Let Hk : class_ok k := wf_mm_found mm c k Hmm Ek.
+
+    Definition jek : list (Z * json) :=
+      map (fun p => (fst p, jenc_tree mm sd S (Some (f_type (feat_in (c_conts k) (fst p)))) (snd p))) kids.
+    Definition LA : list (Z * option json) :=
+      map (fun p => (fst p, jenc_attr sd (feat_in (c_attrs k) (fst p)) (isset iss (fst p)) (snd p))) attrs.
+    Definition LR : list (Z * option json) :=
+      map (fun p => (fst p, jenc_ref mm sd S (feat_in (c_refs k) (fst p)) (isset iss (fst p)) (snd p))) refs.
+    Definition LC : list (Z * option json) :=
+      map (fun d => (f_id d, jenc_cont sd d (isset iss (f_id d)) (kids_of (f_id d) jek))) (c_conts k).
+    Definition LL : list (Z * option json) := (K_CLASS, class_entry decl c) :: LA ++ LR ++ LC.
+
+    Lemma enc_node : jenc_tree mm sd S decl (Node c iss attrs refs kids) = JObj (opt_entries LL).
+    Proof. cbn [jenc_tree]. rewrite Ek. reflexivity. Qed.
+
+    Lemma LC_keys : map fst LC = map f_id (c_conts k).
+    Proof. unfold LC. rewrite map_map. reflexivity. Qed.
+
+    Lemma LL_keys : map fst LL = K_CLASS :: map f_id (c_attrs k) ++ map f_id (c_refs k) ++ map f_id (c_conts k).
+    Proof.
+      unfold LL, LA, LR. cbn [map fst]. rewrite !map_app, !map_fst_map, LC_keys, Wattrs, Wrefs. reflexivity.
+    Qed.
+
+    Lemma feat_key_nonneg f :
+      In f (map f_id (c_attrs k) ++ map f_id (c_refs k) ++ map f_id (c_conts k)) -> 0 <= f.
+    Proof.
+      rewrite <- !map_app. intros H. apply in_map_iff in H. destruct H as (d & <- & Hd).
+      exact (ok_nonneg k Hk d Hd).
+    Qed.
+
+    Lemma LL_nodup : NoDup (map fst LL).
+    Proof.
+      rewrite LL_keys. constructor; [|exact (ok_nodup k Hk)].
+      intros H. apply feat_key_nonneg in H. unfold K_CLASS in H. lia.
+    Qed.
+
+    Lemma jfind_ref_none : jfind K_REF (opt_entries LL) = None.
+    Proof.
+      apply jfind_entries_notin. rewrite LL_keys. intros [H|H]; [unfold K_CLASS, K_REF in H; lia|].
+      apply feat_key_nonneg in H. unfold K_REF in H. lia.
+    Qed.
+
+    Lemma jfind_class : jfind K_CLASS (opt_entries LL) = class_entry decl c.
+    Proof. apply (jfind_entries_in LL K_CLASS _ LL_nodup). left. reflexivity. Qed.
+
+    Lemma obj_class_node : obj_class decl (JObj (opt_entries LL)) = Some c.
+    Proof.
+      unfold obj_class. rewrite jfind_ref_none, jfind_class. cbn [is_some].
+      unfold class_entry. destruct decl as [t|]; [|reflexivity].
+      destruct (Z.eqb_spec t c) as [E|_]; [rewrite E|]; reflexivity.
+    Qed.
+  End Keys.
+
+  (* the object written for a well-formed tree: an object, without "$ref", whose class is read back *)
+  Lemma enc_shape t : wf_tree mm S t = true ->
+    forall decl, exists es, jenc_tree mm sd S decl t = JObj es /\ obj_class decl (JObj es) = Some (t_cls t).
+  Proof.
+    destruct t as [c iss attrs refs kids]. intros Hwf decl.
+    destruct (wf_tree_node _ _ _ _ _ _ _ Hwf) as (k & Ek & _ & Wa & _ & Wr & _).
+    exists (opt_entries (LL decl c k iss attrs refs kids)). split.
+    - exact (enc_node decl c k iss attrs refs kids Ek).
+    - exact (obj_class_node decl c k iss attrs refs kids Ek Wa Wr).
+  Qed.
+
+  Section Node.
+    Variables (decl : option Z) (c : Z) (k : class) (iss : list Z) (attrs : list (Z * list ostr))
+              (refs : list (Z * list path)) (kids : list (Z * tree (list path))).
+    Hypothesis Ek : find_class mm c = Some k.
+    Hypothesis Wattrs : map fst attrs = map f_id (c_attrs k).
+    Hypothesis Wrefs : map fst refs = map f_id (c_refs k).
+
+    Let Hk : class_ok k := wf_mm_found mm c k Hmm Ek.
+    Let es : list (Z * json) := opt_entries (LL decl c k iss attrs refs kids).
+    Let Hnd : NoDup (map fst (LL decl c k iss attrs refs kids)) := LL_nodup decl c k iss attrs refs kids Ek Wattrs Wrefs.
+
+    Lemma slot_attr a : In a attrs ->
+      jfind (fst a) es = jenc_attr sd (feat_in (c_attrs k) (fst a)) (isset iss (fst a)) (snd a).
+    Proof.
+      intros H. apply (jfind_entries_in _ _ _ Hnd). right. apply in_or_app. left.
+      unfold LA. apply in_map_iff. exists a. split; [reflexivity | exact H].
+    Qed.
+
+    Lemma slot_ref a : In a refs ->
+      jfind (fst a) es = jenc_ref mm sd S (feat_in (c_refs k) (fst a)) (isset iss (fst a)) (snd a).
+    Proof.
+      intros H. apply (jfind_entries_in _ _ _ Hnd). right. apply in_or_app. right. apply in_or_app. left.
+      unfold LR. apply in_map_iff. exists a. split; [reflexivity | exact H].
+    Qed.
+
+    Lemma es_nodup_z : nodup_z (map fst es) = true.
+    Proof. apply NoDup_nodup_z. apply entries_keys_nodup. exact Hnd. Qed.
+
+    Lemma es_keys_ok : forallb (key_ok k) es = true.
+    Proof.
+      apply forallb_forall. intros q Hq. apply entries_keys_in in Hq.
+      rewrite (LL_keys decl c k iss attrs refs kids Wattrs Wrefs) in Hq. unfold key_ok.
+      destruct Hq as [E|Hq]; [rewrite <- E; reflexivity|].
+      rewrite <- !map_app in Hq. fold (all_feats k) in Hq.
+      destruct (find_feat (all_feats k) (fst q)) eqn:E; [apply orb_true_r|].
+      exfalso. exact (find_feat_none _ _ E Hq).
+    Qed.
+
+    (* ---- attributes *)
+    Hypothesis Wattr_vals : forall a, In a attrs ->
+      let d := feat_in (c_attrs k) (fst a) in
+      (f_many d || (length (snd a) =? 1)%nat)
+      && (isset iss (fst a)
+          || (if f_many d then is_nil (snd a)
+              else match snd a with [v] => ostr_eqb v (f_dflt d) | _ => false end)) = true.
+    Hypothesis Wcanon : forall a, In a attrs ->
+      forallb (canon (atag (feat_in (c_attrs k) (fst a)))) (snd a) = true.
+
+    Lemma jattrs_back : traverse (jrd_attr es) (c_attrs k) = Some attrs.
+    Proof.
+      apply traverse_zip; [exact Wattrs|]. intros a d Ha Hd Hfd.
+      pose proof (Wattr_vals a Ha) as W. cbv zeta in W. pose proof (Wcanon a Ha) as Wc.
+      pose proof (slot_attr a Ha) as Hs.
+      destruct a as [f vs]. cbn [fst snd] in *. subst f.
+      rewrite (feat_in_attr mm Hmm c k Ek d Hd) in W, Wc, Hs.
+      unfold jrd_attr. rewrite Hs. clear Hs.
+      apply andb_true_iff in W. destruct W as [W1 W2]. unfold jenc_attr.
+      destruct (isset iss (f_id d)); cbn [negb orb] in *.
+      - destruct (f_many d) eqn:Em.
+        + rewrite (vals_roundtrip _ _ Wc). reflexivity.
+        + cbn [orb] in W1. apply Nat.eqb_eq in W1. destruct vs as [|v [|v' r]]; try discriminate.
+          cbn [hd_none]. cbn [forallb] in Wc. rewrite andb_true_r in Wc.
+          destruct (negb sd && ostr_eqb v (f_dflt d)) eqn:Eo.
+          * apply andb_true_iff in Eo. destruct Eo as [_ Eo]. rewrite (ostr_eqb_eq _ _ Eo). reflexivity.
+          * rewrite (val_roundtrip _ _ Wc). reflexivity.
+      - destruct (f_many d) eqn:Em.
+        + destruct vs; [reflexivity | discriminate].
+        + destruct vs as [|v [|v' r]]; try discriminate. rewrite (ostr_eqb_eq _ _ W2). reflexivity.
+    Qed.
+
+    (* ---- references: the JSON value is kept *)
+    Lemma jrefs_back :
+      map (fun d => (f_id d, jfind (f_id d) es)) (c_refs k)
+      = map (fun p => (fst p, jenc_ref mm sd S (feat_in (c_refs k) (fst p)) (isset iss (fst p)) (snd p))) refs.
+    Proof.
+      apply zip_map; [rewrite map_fst_map; exact Wrefs|]. intros a d Ha Hd Hfd.
+      apply in_map_iff in Ha. destruct Ha as (p & <- & Hp). cbn [fst snd] in *.
+      rewrite <- Hfd. exact (slot_ref p Hp).
+    Qed.
+  End Node.
+End Phase1.
